@@ -44,8 +44,13 @@ while True:
     W.write(bytes.fromhex(script.decode())); W.flush()
 '''
 
-PROBE = b"0013status=success0000" + b"000cprobe-ok" + b"0000" + b"0000"
-PLAIN_HANDSHAKE = b"0015git-filter-server000dversion=20000" + b"0014capability=clean0015capability=smudge0000"
+def _enc(*items):
+    """Independent pkt-line rendering for the helper's scripts (None = flush-pkt)."""
+    return b"".join(b"0000" if x is None else b"%04x" % (len(x) + 4) + x for x in items)
+
+
+PROBE = _enc(b"status=success", None, b"probe-ok", None, None)
+PLAIN_HANDSHAKE = _enc(b"git-filter-server", b"version=2", None, b"capability=clean", b"capability=smudge", None)
 
 
 class Env:
